@@ -1,10 +1,7 @@
 (* C03 / C12: motion vector reconstruction kernels against their specs. *)
-From H263V Require Import base.Prelude model.Types model.Tables model.Reader model.Header model.Syntax model.F32 model.Recon model.Decoder.
+From H263V Require Import base.Prelude spec.SpecRecon model.Types model.Tables model.Reader model.Header model.Syntax model.F32 model.Recon model.Decoder.
 Require Import ZifyBool.
 Ltac Zify.zify_post_hook ::= Z.to_euclidean_division_equations.
-
-(* restricted mode (no UMV option): predictor + differential reduced modulo 64 half samples into -32..31 *)
-Definition wrap_spec (p d : Z) : Z := (p + d + 32) mod 64 - 32.
 
 Lemma halfpel_wrap cur running p d is_x :
   has running UNRESTRICTED_MOTION_VECTORS = false ->
@@ -17,10 +14,6 @@ Proof.
   destruct ((- (32) <=? Z.min 32767 (Z.max (-32768) (d + p))) && (Z.min 32767 (Z.max (-32768) (d + p)) <? 32)) eqn:E3;
   cbn [negb]; lia.
 Qed.
-
-(* sum of four luma components (half units) -> chroma component: s/8 rounded by the sixteenth-position table *)
-Definition sixteenth (r : Z) : Z := if r <=? 2 then 0 else if r <=? 13 then 1 else 2.
-Definition chroma_spec (s : Z) : Z := Z.sgn s * (2 * (Z.abs s / 16) + sixteenth (Z.abs s mod 16)).
 
 Lemma land15_mod16 s : Z.land s 15 = s mod 16.
 Proof. change 15 with (Z.ones 4). rewrite Z.land_ones by lia. reflexivity. Qed.
@@ -60,4 +53,62 @@ Proof.
   induction items as [|[t v] rest IH]; intros i mbpl np np' H; [constructor|].
   cbn [gather_go] in H. destruct (mb_is_inter t) eqn:E; [discriminate|].
   constructor; [exact E|]. eapply IH; eauto.
+Qed.
+
+Lemma lerp_is_spec h : into_lerp_parameters h = lerp_spec h.
+Proof.
+  unfold into_lerp_parameters, lerp_spec.
+  Ltac Zify.zify_post_hook ::= Z.to_euclidean_division_equations.
+  destruct (Z.rem h 2 =? 0) eqn:E1; destruct (h mod 2 =? 0) eqn:E2; cbn [negb]; try (f_equal; lia); try lia.
+  destruct (h <? 0) eqn:E3; f_equal; lia.
+Qed.
+
+(* median_of is the three-way median *)
+Lemma median_of_is_median3 a m r : median_of a m r = median3 a m r.
+Proof.
+  unfold median_of, median3.
+  destruct (m <? a) eqn:E1; destruct (m <? r) eqn:E2; destruct (a <? r) eqn:E3; destruct (r <? m) eqn:E4; lia.
+Qed.
+
+(* predict_candidate = median of the three clause-6.1.1 candidates, for every picture width in macroblocks,
+   every position and every block index; neighbours are looked up in the list of vectors decoded so far *)
+Definition nb (pv : list mv4) (i : Z) : option mv4 := if i <? 0 then None else nth_error pv (Z.to_nat i).
+
+Lemma predict_candidate_spec pv cur mbw idx :
+  1 <= mbw -> 0 <= idx <= 3 ->
+  let n := zlength pv in
+  let col := n mod mbw in
+  let line := n / mbw in
+  predict_candidate pv cur mbw idx =
+  Ok (predictor_spec (if col =? 0 then None else nb pv (n - 1))
+                     (if line =? 0 then None else nb pv (n - mbw))
+                     (if line =? 0 then None else nb pv (n - mbw + 1))
+                     (col =? mbw - 1) cur idx).
+Proof.
+  intros Hm Hi. cbv zeta. unfold predict_candidate, rem_chk, div_chk.
+  destruct (mbw =? 0) eqn:E0; [lia|]. cbn [bind].
+  assert (Hn : 0 <= zlength pv) by (unfold zlength; lia).
+  rewrite Z.rem_mod_nonneg by lia. rewrite Z.quot_div_nonneg by lia.
+  set (n := zlength pv). set (col := n mod mbw). set (line := n / mbw).
+  assert (Hcol : 0 <= col < mbw) by (subst col; apply Z.mod_pos_bound; lia).
+  assert (Hline : 0 <= line) by (subst line; apply Z.div_pos; lia).
+  assert (Hdm : n = mbw * line + col) by (subst col line; apply Z.div_mod; lia).
+  replace (Z.max 0 (mbw - 1)) with (mbw - 1) by lia.
+  assert (Hsome : forall k, 0 <= k < n -> nth_error pv (Z.to_nat k) <> None).
+  { intros k Hk Hc. apply nth_error_None in Hc. unfold n, zlength in Hk. lia. }
+  unfold predictor_spec, candidates_spec, mv_median, vmedian, nb, get.
+  assert (Hidx : idx = 0 \/ idx = 1 \/ idx = 2 \/ idx = 3) by lia.
+  destruct (col =? 0) eqn:Ec; destruct (line =? 0) eqn:El; destruct (col =? mbw - 1) eqn:Ee;
+  destruct Hidx as [-> | [-> | [-> | ->]]]; cbn [Z.eqb orb bind Pos.eqb];
+  rewrite ?median_of_is_median3;
+  try (destruct (n - 1 <? 0) eqn:En1; [apply Z.ltb_lt in En1; apply Z.eqb_neq in Ec; nia|]);
+  try (replace (Z.max 0 (line - 1) * mbw + col) with (n - mbw) by (apply Z.eqb_neq in El; nia));
+  try (replace (n - mbw + 1 - 0) with (n - mbw + 1) by lia);
+  try (destruct (n - mbw <? 0) eqn:En2; [apply Z.ltb_lt in En2; apply Z.eqb_neq in El; nia|]);
+  try (destruct (n - mbw + 1 <? 0) eqn:En3; [apply Z.ltb_lt in En3; apply Z.eqb_neq in El; nia|]);
+  try reflexivity;
+  repeat match goal with
+  | |- context [nth_error pv ?k] => destruct (nth_error pv k) eqn:?
+  end; cbn [bind]; rewrite ?median_of_is_median3; try reflexivity.
+  all: exfalso; apply Z.eqb_neq in Ec; eapply (Hsome (n - 1)); [nia|eassumption].
 Qed.
